@@ -99,6 +99,7 @@ type nameStatus struct {
 }
 
 var b1Phase1 []*FuncResult
+var b1AtomicChecked int
 
 var rank = map[string]int{"proved": 0, "unknown": 1, "error": 2, "failed": 3}
 
@@ -360,6 +361,11 @@ func cmdCheck(args []string) {
 				}
 			}
 		}
+		nAtomic, badAtomic := env.atomicRuleViolations()
+		for _, b := range badAtomic {
+			violations = append(violations, violation{Obligation: "atomic-rule:" + strings.SplitN(b, ":", 2)[0], Reason: "field shared between goroutines without a lock must have a sync/atomic type: " + b, NoInput: true})
+		}
+		b1AtomicChecked = nAtomic
 		probe := &VC{cs: env.cs}
 		for _, r := range probe.guardRules() {
 			if r.lock == "frozen" {
@@ -610,6 +616,7 @@ func cmdCheck(args []string) {
 			"bounded_standins":         []string{},
 			"selftest":                 selftest,
 			"b1_not_covered":           sweptUncovered,
+			"b1_atomic_fields_checked": b1AtomicChecked,
 			"contract_sources":         srcs,
 			"lemmas":                   len(lemmaObls),
 		},
